@@ -15,6 +15,8 @@
 //@ spec
     requires name@.len() < lim(), data@.len() < lim(), ms::<Meta>() < lim(),
     ensures res == page_size(hs() + name@.len() + ms::<Meta>() + data@.len()),
+//@ entry
+        proof { reveal(page_size); }
 //@ fn Archive::fits
 //@ spec
     requires object_size + hs() <= u64::MAX,
@@ -50,6 +52,7 @@
         let ghost ps = psize::<Meta>(name@, data@);
         proof {
             broadcast use hash_in_range;
+            lemma_page_size(hs() + name@.len() + ms::<Meta>() + data@.len());
             lemma_lay_facts(a0, e0, bs0, Seq::empty());
             lemma_frame_all();
             assert(0 <= k < e0.len() && e0[k] == s);
@@ -171,7 +174,7 @@
 //@ entry
         let ghost c = ec(*self);
         let ghost mut j: int = 0;
-        proof { lemma_lay_facts(*self, c, bcs(*self), Seq::empty()); }
+        proof { lemma_lay_facts(*self, c, bcs(*self), Seq::empty()); lemma_page_size(hs() + name@.len() + ms::<Meta>() + data@.len()); }
 //@ closure 1
 |obj: &(ObjectHeader, NonZeroU64)| -> (r: u64)
 //@ loop 1
@@ -199,6 +202,7 @@
             broadcast use hash_in_range;
             assert(bcs(*self)[hash as int] == c);
             assert(bucket_ok(*self, hash as int, bcs(*self)[hash as int]));
+            assert(bucket_of(*self, name@) == c);
         }
 //@ loop 1
         invariant
@@ -207,6 +211,17 @@
             prev == ptr(c, j - 1),
             forall|i: int| 0 <= i < j ==> #[trigger] name_at(self.file, c[i]) != name@,
         decreases c.len() - j,
+//@ loopentry 1
+            proof {
+                assert(pos.v == c[j]);
+                assert(c.contains(c[j]));
+                let i = c.index_of(c[j]);
+                if i < j { assert(c[i] != c[j]); } else if j < i { assert(c[j] != c[i]); }
+                assert(prev == ptr(c, c.index_of(c[j]) - 1));
+                assert(name_at(self.file, c[j]) == name@ || name_at(self.file, c[j]) != name@);
+                assert(hdr(self.file, c[j]).next == ptr(c, j + 1));
+                assert(bucket_of(*self, name@) == c);
+            }
 //@ loopend 1
             proof { j = j + 1; }
 //@ fn Archive::unlink_empty
@@ -259,7 +274,14 @@
 // ---- sizes ------------------------------------------------------------------------------------
 // lengths are sums of in-memory lengths; the same domain restriction as the Kani harnesses
 spec fn lim() -> int { 0x100_0000_0000_0000 }
+#[verifier::opaque]
 spec fn page_size(min: int) -> int { ((min + 255) / 256) * 256 }
+proof fn lemma_page_size(min: int)
+    requires min >= 0,
+    ensures page_size(min) >= min, page_size(min) - min < 256, page_size(min) % 256 == 0,
+{
+    reveal(page_size);
+}
 spec fn psize<M: ObjectMeta>(name: Seq<u8>, data: Seq<u8>) -> int { page_size(hs() + name.len() + ms::<M>() + data.len()) }
 spec fn fits_spec(e: int, o: int) -> bool { e == o || e >= o + hs() }
 
@@ -577,6 +599,7 @@ proof fn lemma_replace_transfer<M: ObjectMeta>(a0: Archive<M>, a5: Archive<M>, n
             &&& !hdr(a0.file, q).is_empty ==> name_at(a5.file, q) == name_at(a0.file, q)
         },
 {
+    lemma_page_size(hs() + name.len() + ms::<M>() + data.len());
     broadcast use hash_in_range;
     let e0 = ec(a0); let bs0 = bcs(a0); let e2 = replace_e(a0, name, data, s, k); let bs2 = publish_bs(a0, name, s);
     let h = hash_spec(a0.meta, name) as int;
@@ -613,6 +636,7 @@ proof fn lemma_replace_echain<M: ObjectMeta>(a0: Archive<M>, a5: Archive<M>, nam
         is_chain(a5.file, ehead(a5), replace_e(a0, name, data, s, k)),
         forall|i: int| 0 <= i < replace_e(a0, name, data, s, k).len() ==> (#[trigger] hdr(a5.file, replace_e(a0, name, data, s, k)[i])).is_empty,
 {
+    lemma_page_size(hs() + name.len() + ms::<M>() + data.len());
     broadcast use hash_in_range;
     let e0 = ec(a0); let bs0 = bcs(a0); let e2 = replace_e(a0, name, data, s, k); let bs2 = publish_bs(a0, name, s);
     let h = hash_spec(a0.meta, name) as int;
@@ -676,6 +700,7 @@ proof fn lemma_replace_bucket<M: ObjectMeta>(a0: Archive<M>, a5: Archive<M>, nam
     requires replace_pre(a0, a5, name, meta, data, s, k), 0 <= b < nb(a0),
     ensures bucket_ok(a5, b, publish_bs(a0, name, s)[b]),
 {
+    lemma_page_size(hs() + name.len() + ms::<M>() + data.len());
     broadcast use hash_in_range;
     let e0 = ec(a0); let bs0 = bcs(a0); let bs2 = publish_bs(a0, name, s);
     let h = hash_spec(a0.meta, name) as int;
@@ -762,6 +787,7 @@ proof fn lemma_replace_members<M: ObjectMeta>(a0: Archive<M>, a5: Archive<M>, na
         hdr(a0.file, s).size > psize::<M>(name, data) ==>
             member(a5, replace_e(a0, name, data, s, k), publish_bs(a0, name, s), Seq::empty(), (s + psize::<M>(name, data)) as u64),
 {
+    lemma_page_size(hs() + name.len() + ms::<M>() + data.len());
     broadcast use hash_in_range;
     let e0 = ec(a0); let bs0 = bcs(a0); let e2 = replace_e(a0, name, data, s, k); let bs2 = publish_bs(a0, name, s);
     let h = hash_spec(a0.meta, name) as int;
@@ -797,6 +823,7 @@ proof fn lemma_replace_tiles<M: ObjectMeta>(a0: Archive<M>, a5: Archive<M>, name
     requires replace_pre(a0, a5, name, meta, data, s, k),
     ensures tiles(a5, replace_e(a0, name, data, s, k), publish_bs(a0, name, s), Seq::empty()),
 {
+    lemma_page_size(hs() + name.len() + ms::<M>() + data.len());
     let e0 = ec(a0); let bs0 = bcs(a0); let e2 = replace_e(a0, name, data, s, k); let bs2 = publish_bs(a0, name, s);
     let ps = psize::<M>(name, data); let es = hdr(a0.file, s).size;
     let no = Seq::<u64>::empty();
@@ -876,8 +903,8 @@ spec fn cand_ok<M>(a: Archive<M>, size: int, r: (ObjectHeader, NonZeroU64)) -> b
 // what find returns: the i-th entry of the name's bucket chain
 spec fn found_ok<M>(a: Archive<M>, name: Seq<u8>, f: FoundObject) -> bool {
     let c = bucket_of(a, name);
-    exists|i: int| 0 <= i < c.len() && #[trigger] c[i] == f.start && name_at(a.file, c[i]) == name
-        && f.header == hdr(a.file, c[i]) && f.prev == ptr(c, i - 1)
+    &&& c.contains(f.start) && name_at(a.file, f.start) == name
+    &&& f.header == hdr(a.file, f.start) && f.prev == ptr(c, c.index_of(f.start) - 1)
 }
 // ---- create_empty ----------------------------------------------------------------------------------
 // p is on no chain
